@@ -129,6 +129,22 @@ def run(ck):
             viol.append(dict(kind='entry', ant=ant, observed=s))
         elif a:
             dis.append(dict(ant=ant, why=a))
+    # grounded slopers exactly on the diagonals and axes (the non-vertical-grounded flag of the fill), grounded at either end
+    import c05
+    for ant in c05.diagonal_cases(rng)[:(6 if ck.tier == 'quick' else 12)]:
+        try:
+            a, s, st = evaluate(d, ant)
+        except Exception as e:
+            dis.append(dict(ant=ant, why='evaluation raised %s: %s' % (type(e).__name__, e)))
+            continue
+        progs += st['far']
+        worst = max(worst, st['worst_spec'])
+        ck.case(('diagonal', tuple(ant['wires'][0]['p0']), tuple(ant['wires'][0]['p1'])), st['far'] > 0)
+        ck.count('family_diagonal-sloper')
+        if s:
+            viol.append(dict(kind='entry', ant=ant, observed=s))
+        elif a:
+            dis.append(dict(ant=ant, why=a))
     ck.cov['programs'] = max(progs, 1)
     ck.cov['disagreements_checked'] = len(dis)
     ck.stats['disagreements'] = len(dis)
